@@ -5,7 +5,7 @@ From KV Require Import Lib.Str Model.Vpp Gen.UmlSrc Gen.UmlCsSrc Model.Uml Model
                        Proofs.UmlUnique Proofs.UmlCsFiles Proofs.UmlCsOps Proofs.UmlCsPins Proofs.UmlCsTop
                        Model.UmlBlob Model.UmlWriter Gen.UmlBlobShipped Proofs.UmlBlobDefs Proofs.UmlBlobStruct Proofs.UmlBlobText
                        Proofs.UmlBlobTop Proofs.UmlBlobRound Proofs.UmlBlobVis Proofs.UmlBlobCompose Proofs.UmlBlobCalib Proofs.UmlBlobPins
-                       Model.UmlDomain Model.UmlSem Gen.UmlSemShipped Proofs.UmlSemExample Proofs.UmlSemCalib Proofs.UmlSemTop.
+                       Model.UmlDomain Model.UmlSem Gen.UmlSemShipped Proofs.UmlSemExample Proofs.UmlSemCalib Proofs.UmlSemTop Proofs.UmlCsFrom.
 Import ListNotations.
 Open Scope string_scope.
 
@@ -496,3 +496,39 @@ Theorem C19_realised_from_diagram : forall (D : sdiagram) (d : db) fuel vis dcl 
   /\ In {| en_class := c_name k; en_owner := c_name p; en_owner_pure := true; en_realised := true; en_op := o |} l.
 Proof. exact realised_from_diagram. Qed.
 Print Assumptions C19_realised_from_diagram.
+
+(* ... and for the C# back end: cdiagram_cs_of D = the diagram as LanguageCsharp's helpers render the objects read (to_cdiagram_cs:
+   qualified names with dots, no pointer / reference modifiers, List<> for vectors, T[] for arrays, ref / out parameter prefixes;
+   tied to the real helpers at function level and on every project the harness synthesises) *)
+Theorem C19_adaptor_cs_roundtrip : forall (D : sdiagram) (d : db), sdiagram_ok D = true -> chosts d (tree_of D) = true ->
+  adaptor_cs d (sd_name D) = Some (cdiagram_cs_of D).
+Proof. exact adaptor_cs_hosted. Qed.
+Print Assumptions C19_adaptor_cs_roundtrip.
+
+Theorem C19_files_cs_from_diagram : forall (D : sdiagram) (d : db) (nsf : bool) (dname : string),
+  sdiagram_ok D = true -> chosts d (tree_of D) = true -> files_hyp_cs nsf dname (cdiagram_cs_of D) = true ->
+  adaptor_cs d (sd_name D) = Some (cdiagram_cs_of D)
+  /\ files_all template_files_cs nsf dname (cdiagram_cs_of D) = expected_files_cs nsf dname (cdiagram_cs_of D).
+Proof. exact files_cs_from_diagram. Qed.
+Print Assumptions C19_files_cs_from_diagram.
+
+Theorem C19_once_cs_from_diagram : forall (D : sdiagram) (d : db) (k : cls) (P : entry -> bool),
+  sdiagram_ok D = true -> chosts d (tree_of D) = true ->
+  acyclic (cdiagram_cs_of D) = true -> closed (cdiagram_cs_of D) = true -> In k (classes (cdiagram_cs_of D)) ->
+  adaptor_cs d (sd_name D) = Some (cdiagram_cs_of D)
+  /\ exists ms al, members_cs (List.length (classes (cdiagram_cs_of D))) (cdiagram_cs_of D) k = Some ms
+                   /\ all_cs (List.length (classes (cdiagram_cs_of D))) (cdiagram_cs_of D) k = Some al /\ count P ms = count P al.
+Proof. exact once_cs_from_diagram. Qed.
+Print Assumptions C19_once_cs_from_diagram.
+
+Theorem C19_realised_cs_from_diagram : forall (D : sdiagram) (d : db) fuel vis (k : cls) (i : inh) (p : cls) (o : oper) l,
+  sdiagram_ok D = true -> chosts d (tree_of D) = true ->
+  In i (inhs (cdiagram_cs_of D)) -> contains (c_id k) (i_to i) = true -> i_real i = true ->
+  find_class (classes (cdiagram_cs_of D)) (i_from i) = Some p -> c_pure p = true ->
+  In o (c_ops p) -> vis_match vis o = true -> c_name k <> "" ->
+  existsb (key_eqb (sig_key (cs_oper o))) (declared_of (cs_cls k)) = false ->
+  ops_of_cs (S (S fuel)) (cdiagram_cs_of D) vis k = Some l ->
+  adaptor_cs d (sd_name D) = Some (cdiagram_cs_of D)
+  /\ In {| en_class := c_name k; en_owner := c_name p; en_owner_pure := true; en_realised := true; en_op := cs_oper o |} l.
+Proof. exact realised_cs_from_diagram. Qed.
+Print Assumptions C19_realised_cs_from_diagram.
